@@ -185,6 +185,22 @@ def build_case(cid, seed):
     for (k, i, j, mx) in slots[:nspec]:
         segs[k][1][i][j] = special(rnd, bad, mx)
     desc['specials'] = min(nspec, len(slots))
+    # a value in an element the map marks not-used, with filled used elements after it in the same segment: the segment stays
+    # located (an element error is reported), and the round trip may drop that value only
+    if rnd.random() < 0.35:
+        cands = []
+        for k in range(1, len(segs)):
+            if segs[k][0] in ENVELOPE:
+                continue
+            for i, c in enumerate(nodes[k].children):
+                if c.usage == 'N' and i < len(segs[k][1]) - 1 and (segs[k][0], i) not in KEEP \
+                        and all(v == '' for v in segs[k][1][i]) and any(v != '' for e in segs[k][1][i + 1:] for v in e):
+                    cands.append((k, i))
+        rnd.shuffle(cands)
+        for (k, i) in cands[:rnd.choice([1, 2, 4])]:
+            segs[k][1][i] = [rnd.choice(['X', '1', 'NU'])]
+        if cands:
+            desc['extras'].append('not_used_filled')
     # ISA id fields (fixed width, blanks significant)
     if rnd.random() < 0.4:
         for i in (1, 3, 5, 7):
